@@ -7,6 +7,8 @@ for p in sorted(glob.glob(os.path.join(os.path.dirname(os.path.dirname(os.path.a
     notes = (m.get("needs_to_manifest") or "").strip().splitlines()
     first = next((l.strip("# ").strip() for l in notes if l.strip() and not l.startswith("#")), "")[:150]
     det = ", ".join(f"{k}:{'caught' if v['detected'] else 'MISSED'}" + (f" ({'; '.join(list(v['violation_classes'])[:2])})" if v.get('violation_classes') else "") for k, v in m.get("checks", {}).items())
+    if m.get("note"):
+        det += " - " + m["note"]
     rows.append(f"| {m['name']} | {m['breaks_property']} | {'yes' if m.get('valid') else 'NO'} | {det} | {first} |")
 print("| seeded change | property | verified (tests pass, demo fails/passes) | quick checks | what it needs to manifest |")
 print("|---|---|---|---|---|")
